@@ -222,7 +222,7 @@ func TestVerifC01(t *testing.T) {
 	r.Bounds["expression_token_sequences_up_to"] = tokN
 	r.Bounds["expression_char_strings_up_to"] = chrN
 	r.Bounds["pairs_of_substitutions"] = vThorough()
-	r.Extra["rule"] = "channels {workflow, workflow inside a repository with a local action and a local reusable workflow, action metadata, reusable workflow, repo config, -config-file} x (every value and key position of the channel's seeds x ~115 YAML fragments incl. explicit tags, anchors/aliases/merge keys, nesting to depth 5000, invalid UTF-8, block forms; all byte strings <= 2; thorough: all pairs of fragments in sibling positions of one mapping) + all expression token sequences / character strings up to a bound inside ${{ }} and bare if: through the whole Linter. + every list of 1-3 runner labels out of 10 x 3 forms of runs-on x 7 shell names at step / job defaults. oracle: no panic, result shape, termination. class = (channel, result kind); non-trivial = anything but a clean lint"
+	r.Extra["rule"] = "channels {workflow, workflow inside a repository with a local action and a local reusable workflow, action metadata, reusable workflow, repo config, -config-file} x (every value and key position of the channel's seeds x ~115 YAML fragments incl. explicit tags, anchors/aliases/merge keys, nesting to depth 5000, invalid UTF-8, block forms; all byte strings <= 2; thorough: all pairs of fragments in sibling positions of one mapping) + all expression token sequences / character strings up to a bound inside ${{ }} and bare if: through the whole Linter. + every list of 1-3 runner labels out of 10 x 3 forms of runs-on x 7 shell names at step / job defaults + accessor chains of <= 4 steps on 5 roots in 7 wrappers. oracle: no panic, result shape, termination. class = (channel, result kind); non-trivial = anything but a clean lint"
 	r.Extra["assumptions"] = []string{"inputs above the stated bounds (all byte strings <= 64 KiB) are out of reach of enumeration", "yaml.v3 is exercised only as far as these inputs drive it", "a case running longer than 120 s counts as a hang"}
 	dir := vTempDir(t, "c01-")
 	c01Project(t, dir)
@@ -583,6 +583,48 @@ func TestVerifC01(t *testing.T) {
 						res := vLint(src, nil)
 						c01Oracle(r, chans[0], what, res, map[string]any{"channel": "workflow", "content": src})
 					}
+				}
+			}
+		}
+	}
+
+	// (d3) accessor chains of up to 4 steps over {.*, a defined property, an undefined one, [0], a second
+	// property} on 5 roots with element types of different strictness (matrix rows that are arrays of
+	// mappings, a JSON literal, steps, needs, the webhook payload), bare and inside 6 wrappers that look at
+	// the result's type: what a rejected step leaves behind must be a type the next step can work on
+	{
+		accs := []string{".*", ".name", ".nmae", "[0]", ".first"}
+		roots := []string{"matrix.pkgs", "fromJSON('[{\"name\":\"a\",\"dir\":[1]}]')", "steps", "needs", "github.event.commits"}
+		wraps := []string{"%s", "contains(%s, 'a')", "join(%s, ',')", "toJSON(%s)", "%s == 1", "format('{0}', %s)", "%s && true || %s"}
+		chains := []string{""}
+		frontier := []string{""}
+		for l := 0; l < 4; l++ {
+			var next []string
+			for _, f := range frontier {
+				for _, a := range accs {
+					next = append(next, f+a)
+				}
+			}
+			chains = append(chains, next...)
+			frontier = next
+		}
+		r.Bounds["accessor_chains"] = len(chains)
+		for _, root := range roots {
+			for _, ch := range chains {
+				for _, w := range wraps {
+					idx++
+					if !r.Mine(idx) {
+						continue
+					}
+					if idx%1024 == 0 && r.Expired() {
+						return
+					}
+					expr := strings.ReplaceAll(w, "%s", root+ch)
+					src := "on: push\njobs:\n  up:\n    runs-on: ubuntu-latest\n    outputs:\n      name: v\n    steps:\n      - run: echo\n  a:\n    needs: [up]\n    runs-on: ubuntu-latest\n    strategy:\n      matrix:\n        pkgs: [[{name: a, dir: x}], [{name: b, dir: y}]]\n    steps:\n      - id: name\n        run: echo\n      - run: echo ${{ " + expr + " }}\n        if: ${{ " + expr + " }}\n"
+					what := "accessor chain " + expr
+					r.Begin(func() string { return what })
+					res := vLint(src, nil)
+					c01Oracle(r, chans[0], what, res, map[string]any{"channel": "workflow", "content": src})
 				}
 			}
 		}
